@@ -74,6 +74,10 @@ func lenPrefix(base byte, l int, forceLong bool) []byte {
 // encode serialises the tree canonically except at the item whose pre-order number is *target
 // (counted down to zero), where deviation dev is applied. It reports whether it was applied.
 func (n *rnode) encode(target *int, dev int, applied *string) []byte {
+	if dev == 5 {
+		out, _ := n.encodeSizeAttack(target, applied)
+		return out
+	}
 	here := *target == 0
 	*target--
 	if n.list || n.embedded {
@@ -120,6 +124,67 @@ func (n *rnode) encode(target *int, dev int, applied *string) []byte {
 	return append(lenPrefix(0x80, len(s), false), s...)
 }
 
+// hugeHeader returns an 8-byte-length header (list or string) announcing 2^(63-depth)-16 bytes:
+// strictly decreasing with depth so that every inner lie still fits into the enclosing lie.
+func hugeHeader(list bool, depth int) []byte {
+	v := (uint64(1) << uint(63-depth)) - 16
+	if depth == 0 {
+		v = ^uint64(0) - 16
+	}
+	h := []byte{0xbf, 0, 0, 0, 0, 0, 0, 0, 0}
+	if list {
+		h[0] = 0xff
+	}
+	for i := 0; i < 8; i++ {
+		h[1+i] = byte(v >> uint(56-8*i))
+	}
+	return h
+}
+
+// encodeSizeAttack serialises the tree with a size-field attack: the target string item
+// announces an enormous length and so does every list that encloses it (inside an embedded
+// payload the chain starts at the payload's root), with strictly decreasing sizes, so that no
+// enclosing list bound catches the lie and only the input-size limit can. It reports whether
+// the target lies in this subtree.
+func (n *rnode) encodeSizeAttack(target *int, applied *string) ([]byte, bool) {
+	return n.sizeAttack(target, applied, 0)
+}
+
+func (n *rnode) sizeAttack(target *int, applied *string, depth int) ([]byte, bool) {
+	here := *target == 0
+	*target--
+	if n.list || n.embedded {
+		var body []byte
+		inside := false
+		kd := depth + 1
+		if n.embedded {
+			kd = 0 // the payload is decoded on its own: its root is depth 0
+		}
+		for _, k := range n.kids {
+			b, in := k.sizeAttack(target, applied, kd)
+			body = append(body, b...)
+			inside = inside || in
+		}
+		if n.embedded {
+			// the attack stays inside the payload: the wrapping byte string is honest
+			return append(lenPrefix(0x80, len(body), false), body...), false
+		}
+		if inside {
+			return append(hugeHeader(true, depth), body...), true
+		}
+		return append(lenPrefix(0xc0, len(body), false), body...), false
+	}
+	s := n.str
+	if here && len(s) >= 1 && depth >= 1 {
+		*applied = "size-attack-chain"
+		return append(hugeHeader(false, depth), s...), true
+	}
+	if len(s) == 1 && s[0] < 0x80 {
+		return []byte{s[0]}, false
+	}
+	return append(lenPrefix(0x80, len(s), false), s...), false
+}
+
 // MutateStructured returns a non-canonical re-encoding of the frame, or ok=false if the frame
 // does not parse or the drawn deviation does not apply at the drawn item.
 func MutateStructured(c *kit.Chooser, data []byte) (out []byte, how string, ok bool) {
@@ -130,7 +195,7 @@ func MutateStructured(c *kit.Chooser, data []byte) (out []byte, how string, ok b
 	n := root.count()
 	for attempt := 0; attempt < 6; attempt++ {
 		t := c.Intn("item", n)
-		dev := c.Intn("deviation", 5)
+		dev := c.Intn("deviation", 6)
 		applied := ""
 		out := root.encode(&t, dev, &applied)
 		if applied != "" {
